@@ -238,7 +238,7 @@ PROPS.update({
     },
 })
 
-A_STALE = "A-stale: StaleNode::stale_key_values (filter + itertools sort) is assumed to yield exactly the member's entries above the start version in strictly ascending version order; SortedStaleNodes::into_iter (BTreeMap + shuffle) is modelled as some sequence of members with distinct ids; both are exercised on the real functions by the bounded drivers c07_window / c14_scope"
+A_STALE = "A-stale: StaleNode::stale_key_values (filter + itertools sort) is assumed to yield exactly the member's entries above the start version in strictly ascending version order; SortedStaleNodes::into_iter (BTreeMap + shuffle) is modelled as some ordering of exactly the members offered (each once); both are exercised on the real functions by the bounded drivers c07_window / c14_scope"
 for _p in ("C07", "C14", "C05", "C12"):
     PROPS[_p]["verus"].append({"unit": U2, "fns": ["ClusterState::offer_stale_nodes", "lemma_has_id_push", "sender_decision", "staleness_score"]})
     if A_STALE not in PROPS[_p]["assumptions"]:
@@ -460,6 +460,10 @@ PROPS["C15"]["level_text"] += " WHEN listeners are triggered is proved at the ca
 PROPS["C15"]["level_note"] = "Deductive obligations exist for the bookkeeping and the trigger condition only; the dispatch itself (which registered prefixes match a key, each exactly once) stays bounded - string-order reasoning over BTreeMap::range is outside both verifiers. Claimed at exploration level with the property's own exhaustive scope; the finding F-2 it exposed is repaired (known_findings.json)."
 PROPS["C07"]["level_text"] += " The size bound is proved for every budget (100..65,535), not only up to 16 KiB, as long as no single op of the offered members (a member header or one key-value) exceeds one 16 KiB block of the compressed stream (small_ops)."
 PROPS["C07"]["level_note"] = "Only for an op larger than the 16 KiB block (a key-value of more than about 16 KiB) is the size bound not proved: the code's own upper bound is short by 3 bytes per extra block if every block were incompressible; measured: 16 KiB blocks of valid UTF-8 (at most 7 bits of entropy per byte) always compress by more than that, so no overshoot is reachable - an unchecked compressibility assumption, exercised by c07_window / c07_reply_size. The content clause rests on the assumed contract of stale_key_values (A-stale) and of the first loop (which members are offered with which start version: sender_decision is proved, the map iteration and the scheduled-for-deletion filter are not); both are checked on the real function by the bounded driver c07_window; the end-to-end reply length incl. the 4-byte header and own digest by c07_reply_size."
+for _p in ("C07", "C12", "C14", "C03", "C05"):
+    PROPS[_p]["verus"].append({"unit": U2, "fns": ["ClusterState::compute_partial_delta_respecting_mtu__whole", "lemma_member_e2e"]})
+PROPS["C07"]["level_text"] += " Besides the two slices, the WHOLE compute_partial_delta_respecting_mtu is verified without slicing (both loops composed through SortedStaleNodes::into_iter) against an end-to-end contract: every member delta of the result is about a known member that is not scheduled for deletion and is ahead of the peer's digest, starts at the version of the sender-side decision, and carries exactly its entries above that version - all of them, or (last member only) a gap-free prefix in ascending version order."
+PROPS["C12"]["level_text"] += " The same end-to-end contract of the whole compute_partial_delta_respecting_mtu says that no member delta is ever about a member of the scheduled-for-deletion set."
 U2_CODEC = ["ChitchatId::serialize", "ChitchatId::serialized_len", "Heartbeat::serialize", "Heartbeat::serialized_len", "NodeDigest::serialize",
             "NodeDigest::serialized_len", "alloc::string::String::serialize", "alloc::string::String::serialized_len",
             "DeletionStatusMutation::serialize", "DeletionStatusMutation::serialized_len", "KeyValueMutationRef::serialize",
